@@ -99,9 +99,12 @@ CHECKS = {
             "re-used, solvers constructed / stepped / drained / abandoned, custom registrations in between); TLC "
             "enumerates every history up to a bound, each is executed in one interpreter in interpreted and in compiled "
             "mode, and TLC compares every step with the reference run made in a fresh interpreter (solutions, final "
-            "statistics, meaning of the problem object). Random instances are run twice per mode and compared by "
-            "spec/ModeTrace.tla.",
-            "Trusted: TLC, spec/ProcessHistory.tla + ModeTrace.tla, harness/rec_history.py; three problem templates x "
+            "statistics, meaning of the problem object, the caller's own configuration objects - handed unchanged from "
+            "one solver to the next). Random instances are run twice per mode, each run starting from a differently "
+            "poisoned allocator cache (a result that depends on uninitialised memory differs deterministically), and "
+            "compared by spec/ModeTrace.tla.",
+            "Trusted: TLC, spec/ProcessHistory.tla + ModeTrace.tla, harness/rec_history.py; four problem templates (two "
+            "of them siblings: same algorithms, arities and domains, other parameters) x "
             "four configurations for the histories (the fourth: a custom heuristic registered after a same-named "
             "sibling, judged against the built-in it clones); numba cache keyed by the source hash.",
             "TLC-enumerated operation histories replayed into the real library (both execution modes) + TLA+ "
@@ -145,8 +148,8 @@ CHECKS = {
             "(written from the problem statements, not from the models' constraints) and the counts / optima known from "
             "the literature; every object produced by the real models (real constructors, symmetry breaking on/off, "
             "bound consistency / shaving, several heuristics, 1..3 processes, the Golomb custom consistency algorithm) is "
-            "validated by TLC, counts and optima are compared with the literature or TLC's own brute force, and the runs "
-            "of one instance are compared with each other. Engine traces of the models at small sizes, incl. the Golomb custom "
+            "validated by TLC, counts and optima are compared with the literature or TLC's own brute force (incl. BIBD "
+            "parameter sets for which no design exists), and the runs of one instance are compared with each other. Engine traces of the models at small sizes, incl. the Golomb custom "
             "consistency algorithm (which filters by itself before calling bound consistency), are replayed through NucsAbs.",
             "Trusted: TLC, spec/Models.tla (validators and literature constants), harness/rec_models.py; sizes within "
             "reach of the watchdog.",
